@@ -8,14 +8,17 @@ import (
 	_ "verif/checks/c03"
 	_ "verif/checks/c04"
 	_ "verif/checks/c05"
+	_ "verif/checks/c06"
 	_ "verif/checks/c07"
 	_ "verif/checks/c08"
+	_ "verif/checks/c09"
 	_ "verif/checks/c10"
 	_ "verif/checks/c11"
 	_ "verif/checks/c14"
 	_ "verif/checks/c15"
 	_ "verif/checks/c17"
 	_ "verif/checks/c18"
+	_ "verif/checks/c19"
 	_ "verif/checks/c20"
 )
 
